@@ -256,6 +256,13 @@ def gen_cases(rng, tier):
                     for i, h in zip(seq[1:], hows):
                         ops.append([0, 0, mk_map(pool[i]), 2 if h == 2 and len(ops) % 2 else 0, h])
                     cases.append({"in": [0, st, ops], "kind": "map-history"})
+    # ---- a caller's key "_none" beside a None key must not matter for schema-less tables ----
+    for kind, a, b in ((K_SEL, None, None), (K_JOIN, None, "per_user"), (K_INS, None, None), (K_CREATE, None, None)):
+        st = [[kind, slot(a), slot(b)]]
+        m1 = {None: "s1", "_none": "s2", "per_user": "s3"}
+        m2 = {"_none": "s3", None: "s2"}
+        cases.append({"in": [0, st, [[0, 0, mk_map(m1), 0], [0, 0, mk_map(m2), 1], [0, 0, mk_map(m1), 2, 1]]],
+                      "kind": "none-key-beside-alias"})
     # ---- every kind x a few fixed maps, None-flip histories ----
     for kind in range(K_MARKER + 1):
         for a, b in ((None, "other"), ("per_user", None), ("per_user", "other"))[: 3 if tier == "thorough" else 2]:
@@ -644,7 +651,10 @@ def impl(c):
         # the known "_none" deviation: a translated schema or a caller's key is literally "_none".  (Since fix
         # a436594 SQLAlchemy no longer writes an alias "_none" into the caller's dict; should a reused dict carry
         # one again - `leaked` - any resulting misbehaviour is an unlisted violation)
-        none_name = any(sl[1] and unS(sl[1][0]) == "_none" for sl in mapped) or (has_map and "_none" in m)
+        # (a key "_none" next to a None key, with no table in a schema called "_none", is harmless: the None entry
+        # wins - c16_stale_alias_ignored - so it is NOT part of the known deviation)
+        none_name = (any(sl[1] and unS(sl[1][0]) == "_none" for sl in mapped)
+                     or (has_map and "_none" in m and None not in m))
         if code == 3:
             if not (has_map and brack):
                 v = "CompileError (bracket) without a bracket name in a translated schema"
